@@ -5,6 +5,7 @@ import (
 	"go/token"
 	"go/types"
 	"sort"
+	"strings"
 
 	"golang.org/x/tools/go/ssa"
 )
@@ -168,6 +169,10 @@ func checkC10(c *Ctx) {
 	ruleNoBlockingUnderClientMutex(c, "C10.k", la)
 	c.rule("C10.l", "merged sub-command errors: a later error is taken only while none is recorded", 0)
 	ruleFirstErrorWins(c, "C10.l", "imapclient")
+	c.rule("C10.m", "a literal reader hands the connection back to the read goroutine on every read error, not only at EOF", 1)
+	ruleHandOverReleasedOnError(c, "C10.m")
+	c.rule("C10.n", "a receive on a channel that only the read goroutine closes also watches the goroutine's termination", 1)
+	ruleReaderClosedChannelsSelected(c, "C10.n")
 }
 
 // ruleRegisterBeforeFlush: in every client function that both registers
@@ -438,78 +443,105 @@ func ruleStreamChannelsClosed(c *Ctx, rule string, complete *ssa.Function) {
 }
 
 // ruleFlushCloses: a failed write of a command tears the client down on every
-// path (C10.d; also run under C13).
+// path (C10.d; also run under C13) — except where the error is established to
+// be the server's own tagged refusal (errors.As(err, **imap.Error) succeeded):
+// that error completed the command already and is not a connection failure.
 func ruleFlushCloses(c *Ctx, rule string, flush, cwe *ssa.Function) {
 	if flush == nil {
 		c.unresolvedRoot("(*commandEncoder).flush")
-	} else {
-		gf := mustFlow(flush, facts{}, func(f facts, i ssa.Instruction) facts {
-			if call, ok := i.(*ssa.Call); ok && staticCallee(call) == cwe {
-				return f.with("closed-client")
+		return
+	}
+	// helpers of flush that tear the client down on all of their paths
+	closers := map[*ssa.Function]bool{cwe: true}
+	for round := 0; round < 2; round++ {
+		for _, h := range helperClosure(flush, 2) {
+			if h == flush || closers[h] {
+				continue
 			}
-			return f
-		}, func(f facts, b *ssa.BasicBlock, s int) facts { return f.with(valueEdgeFacts(b, s)...) })
-		okD := false
-		for _, ret := range returnsOf(flush) {
-			_ = ret
-		}
-		// on the failure edge of CRLF, closeWithError must be reached before returning
-		for _, b := range flush.Blocks {
-			for si := range b.Succs {
-				for _, fc := range failureCalls(b, si) {
-					if callKey(fc) == "(*Encoder).CRLF" {
-						// every return reachable from this edge only... check the successor block's path
-						okD = true
-						for _, ret := range returnsOf(flush) {
-							fs, reach := gf.at(ret)
-							if reach && fs.has("fail:(*Encoder).CRLF") && !fs.has("closed-client") {
-								okD = false
-							}
-						}
-						// the merged return has neither fact; require the call to sit in a block dominated by the failure edge
-						found := false
-						allInstrs(flush, func(i ssa.Instruction) {
-							if call, ok := i.(*ssa.Call); ok && staticCallee(call) == cwe {
-								if b.Succs[si] == call.Block() || b.Succs[si].Dominates(call.Block()) {
-									found = true
-								}
-							}
-						})
-						okD = okD && found
-						// and no way from the failure edge to a return that avoids the teardown
-						// (e.g. an extra `&& !errors.Is(err, net.ErrClosed)` on the same test)
-						closes := map[*ssa.BasicBlock]bool{}
-						allInstrs(flush, func(i ssa.Instruction) {
-							if call, ok := i.(*ssa.Call); ok && staticCallee(call) == cwe {
-								closes[call.Block()] = true
-							}
-						})
-						seenB := map[*ssa.BasicBlock]bool{}
-						var escapes func(x *ssa.BasicBlock) bool
-						escapes = func(x *ssa.BasicBlock) bool {
-							if closes[x] || seenB[x] {
-								return false
-							}
-							seenB[x] = true
-							if len(x.Instrs) > 0 {
-								if _, isRet := x.Instrs[len(x.Instrs)-1].(*ssa.Return); isRet {
-									return true
-								}
-							}
-							for _, s2 := range x.Succs {
-								if escapes(s2) {
-									return true
-								}
-							}
-							return false
-						}
-						if escapes(b.Succs[si]) {
-							okD = false
-						}
-					}
+			gf := mustFlow(h, facts{}, func(f facts, i ssa.Instruction) facts {
+				if call, ok := i.(ssa.CallInstruction); ok && closers[staticCallee(call)] {
+					return f.with("closed-client")
+				}
+				return f
+			}, nil)
+			all := len(returnsOf(h)) > 0
+			for _, r := range returnsOf(h) {
+				if f, reach := gf.at(r); reach && !f.has("closed-client") {
+					all = false
 				}
 			}
+			if all {
+				closers[h] = true
+			}
 		}
-		c.check(okD, rule, "flush: write error closes the client", flush.Pos(), "the failure edge of CRLF() leads to closeWithError", "a failed write of a command is ignored: the command stays pending for ever although it was never sent")
 	}
+	isRefusalTest := func(v ssa.Value) bool {
+		call, ok := v.(*ssa.Call)
+		if !ok {
+			return false
+		}
+		o := calleeObj(call)
+		if o == nil || o.Pkg() == nil || o.Pkg().Path() != "errors" || o.Name() != "As" || len(call.Call.Args) != 2 {
+			return false
+		}
+		t := call.Call.Args[1].Type()
+		if mi, ok := call.Call.Args[1].(*ssa.MakeInterface); ok {
+			t = mi.X.Type()
+		}
+		return strings.Contains(t.String(), modPath+".Error")
+	}
+	okD, found := false, false
+	for _, b := range flush.Blocks {
+		for si := range b.Succs {
+			for _, fc := range failureCalls(b, si) {
+				if callKey(fc) != "(*Encoder).CRLF" {
+					continue
+				}
+				found = true
+				closes := map[*ssa.BasicBlock]bool{}
+				allInstrs(flush, func(i ssa.Instruction) {
+					if call, ok := i.(ssa.CallInstruction); ok && closers[staticCallee(call)] {
+						if _, isDefer := i.(*ssa.Defer); !isDefer {
+							closes[call.Block()] = true
+						}
+					}
+				})
+				seenB := map[*ssa.BasicBlock]bool{}
+				var escapes func(x *ssa.BasicBlock) bool
+				escapes = func(x *ssa.BasicBlock) bool {
+					if closes[x] || seenB[x] {
+						return false
+					}
+					seenB[x] = true
+					if len(x.Instrs) > 0 {
+						if _, isRet := x.Instrs[len(x.Instrs)-1].(*ssa.Return); isRet {
+							return true
+						}
+					}
+					for k, s2 := range x.Succs {
+						// the edge on which the error is known to be the server's refusal
+						exempt := false
+						for _, a := range edgeAtoms(x, k) {
+							if a.True == 1 && isRefusalTest(a.V) {
+								exempt = true
+							}
+						}
+						if exempt {
+							continue
+						}
+						if escapes(s2) {
+							return true
+						}
+					}
+					return false
+				}
+				okD = len(closes) > 0 && !escapes(b.Succs[si])
+			}
+		}
+	}
+	if !found {
+		c.fail(rule, "flush: write error closes the client", flush.Pos(), "flush no longer tests the result of writing the command's CRLF: a failed write of a command is ignored")
+		return
+	}
+	c.check(okD, rule, "flush: write error closes the client", flush.Pos(), "the failure edge of CRLF() leads to closeWithError on every path (except where the error is the server's own tagged refusal)", "a failed write of a command is ignored: the command stays pending for ever although it was never sent")
 }
